@@ -263,6 +263,13 @@ func (s *Service) trafficInit() error {
 		return err
 	}
 
+	// peers that only have a stored cheque must be reloaded as well
+	for k := range lastCheques {
+		allRetrieveTransfer[k] = struct{}{}
+	}
+	for k := range lastTransCheques {
+		allRetrieveTransfer[k] = struct{}{}
+	}
 	addressList, err := s.getAllAddress(allRetrieveTransfer)
 	if err != nil {
 		return fmt.Errorf("traffic: Failed to get chain node information:%v ", err)
